@@ -307,6 +307,16 @@ def run_scatter(spec, ctx):
     rng = ctx.rng
     with gen.quiet():
         system, comp = _build_random_system(rng, ctx)
+        if rng.random() < 0.35:
+            # some bodies / rods are taken out and added again (a replaced part): they now FOLLOW the forces, laws, joints and
+            # contacts acting on them in the contribution list - a sum of contributions does not depend on the order
+            movable = [c for c in system.contributions if getattr(c, "nu", 0) and c is not system.origin]
+            moved = [c for c in movable if rng.random() < 0.6]
+            for c in moved:
+                system.remove(c); system.add(c)
+            if moved:
+                ctx.cls("order:bodies_follow_their_forces")
+                comp = comp + [f"moved_to_end:{len(moved)}"]
         try:
             system.assemble(options=gen.no_cic_options())
         except Exception as e:
